@@ -71,7 +71,7 @@ func drawScript(t *rapid.T, tag byte, withDialect bool, key *[32]byte, maxSeg in
 			kinds = append(kinds, "valid-debug", "valid-debug", "badcrc", "badcrc-noncanonical")
 		}
 		if key != nil {
-			kinds = append(kinds, "badsig", "unsigned", "badsig-future")
+			kinds = append(kinds, "badsig", "unsigned", "badsig-future", "unsigned-v1")
 		}
 		if heartbeats {
 			kinds = append(kinds, "valid-hb", "valid-hb")
@@ -140,6 +140,11 @@ func drawScript(t *rapid.T, tag byte, withDialect bool, key *[32]byte, maxSeg in
 			out = append(out, seg{kind: k, bytes: f.Bytes()})
 		case "unsigned":
 			f := tagged(tag, 9997, "raw", true, nil, 0)
+			out = append(out, seg{kind: k, bytes: f.Bytes()})
+		case "unsigned-v1":
+			// a complete v1 frame (v1 cannot be signed) whose bytes happen to contain marker values: refused as a
+			// whole, it takes nothing of what follows with it
+			f := ref.Frame{Seq: byte(idx), Sys: 50 + tag, Comp: 1, ID: 222, Payload: []byte{0xFD, 0x09, 0x00, 0xFE, 0x05, 0xFD, 0xFD, 0x00, 0x01}, Checksum: 0xFDFE}
 			out = append(out, seg{kind: k, bytes: f.Bytes()})
 		case "junk":
 			m := rapid.IntRange(1, 6).Draw(t, "junklen")
